@@ -1,6 +1,6 @@
 (** * C15 - seeded randomness is reproducible and random grains are valid. *)
 From Coq Require Import Reals Lra Lia List ZArith Bool.
-From WB Require Import Num Base RNum Props World WorldProofs2 Kernels Features FeaturesProofs RandomProofs.
+From WB Require Import Num Base RNum Props World WorldProofs2 Kernels Features FeaturesProofs RandomProofs Mt19937 MtProofs.
 Import ListNotations.
 
 (** [S] answers are a function of the file, the tape of draws (fixed by the seed) and the queries
@@ -61,7 +61,30 @@ Section C15R.
   (** a random composition lies within its configured bounds *)
   Theorem C15_composition_bounds : forall a b u : R, a <= b -> 0 <= u < 1 -> a <= u * (b - a) + a <= b.
   Proof. exact random_composition_in_bounds. Qed.
+  (** the engine behind the tape (Mt19937.v models std::mt19937 and generate_canonical): over the exact reals every draw
+      handed to a model lies in [0,1) - the premise of [C15_composition_bounds] and of the deflection premise of
+      [C15_arvo] holds for the model's own stream *)
+  Theorem C15_draws_in_unit_interval : forall e0 e1 : BinNums.N, (e0 < 2 ^ 32)%N -> (e1 < 2 ^ 32)%N ->
+    0 <= @canonical R N e0 e1 < 1.
+  Proof. exact (canonical_unit_interval sp). Qed.
 End C15R.
+
+(** the engine: the stream is a function of the seed alone, has the requested length, and consists of 32-bit numbers
+    (the hypothesis of [C15_draws_in_unit_interval]); every step reads three real entries of a 624-entry window *)
+Theorem C15_engine_outputs : forall seed n,
+  length (mt_outputs seed n) = n /\ Forall (fun x => (x < 2 ^ 32)%N) (mt_outputs seed n).
+Proof. intros. split; [apply mt_outputs_length | apply mt_outputs_32bit]. Qed.
+
+Theorem C15_engine_window : forall seed n k, (k < n)%nat ->
+  exists w, length w = 624%nat /\ nth k (mt_outputs seed n) 0%N = temper (mt_next (nth 0 w 0%N) (nth 1 w 0%N) (nth 397 w 0%N)).
+Proof. intros seed n k Hk. apply (mt_window_length n (mt_init seed) (mt_init_length seed) k Hk). Qed.
+
+(** the published reference values of MT19937 (default seed 5489, and seed 1), checked by the kernel; and two seeds
+    that give different draws *)
+Example C15_engine_reference :
+  mt_outputs 5489 3 = [3499211612; 581869302; 3890346734]%N /\ mt_outputs 1 2 = [1791095845; 4282876139]%N /\
+  mt_outputs 1 1 <> mt_outputs 2 1.
+Proof. repeat split; try (vm_compute; reflexivity). vm_compute. discriminate. Qed.
 
 Print Assumptions C15_grains_draws.
 Print Assumptions C15_composition_draws.
@@ -70,3 +93,6 @@ Print Assumptions C15_block_size.
 Print Assumptions C15_arvo.
 Print Assumptions C15_normalised.
 Print Assumptions C15_composition_bounds.
+Print Assumptions C15_draws_in_unit_interval.
+Print Assumptions C15_engine_outputs.
+Print Assumptions C15_engine_window.
